@@ -174,3 +174,11 @@ pub proof fn lemma_spliced<Var>(tt: TT<Var>, s: int, e: int, ur: Range<i32>, usa
         assert(overlaps(tt[s], ur)); assert(overlaps(tt[e], ur));
     }
 }
+// nothing is added to a region whose expected height is zero everywhere
+pub proof fn lemma_zero_region<Var>(s0: TT<Var>, lo: int, hi: int, ur: Range<i32>, base: int, usage: int)
+    requires forall|t: int| lo <= t <= hi ==> base + (if in_part(ur, t) { usage } else { 0int }) == 0
+    ensures extends_by(s0, s0, lo, hi, ur, base, usage)
+{
+    assert(s0.subrange(0, s0.len() as int) =~= s0);
+    assert(s0.subrange(s0.len() as int, s0.len() as int) =~= Seq::<ResourceProfile<Var>>::empty());
+}
